@@ -16,7 +16,7 @@ CONSTANTS
   MaxOps = 5
   GateMsgs = 3
   GenStage = {"need", "elected"}
-  GenProc = {"none", "pad", "err"}
+  GenProc = {"none", "pad"}
   VarMode = "small"
 INIT GInit
 NEXT GNextC
